@@ -56,6 +56,26 @@ def ecb(task_id):
     ACTIVE.cbs.append(("ecb", task_id))
 
 
+class Handler:
+    """Module-level object whose bound methods are named on the command line (dotted path through an instance)."""
+
+    async def work(self, *args, **kwargs):
+        return await work(*args, **kwargs)
+
+    def on_end(self, task_id):
+        ACTIVE.cbs.append(("handler.on_end", task_id))
+
+    async def on_cancel(self, task_id):
+        ACTIVE.cbs.append(("handler.on_cancel", task_id))
+
+    @classmethod
+    def cls_on_end(cls, task_id):
+        ACTIVE.cbs.append((cls.__name__ + ".cls_on_end", task_id))
+
+
+handler = Handler()
+
+
 def ecb_raise(task_id):
     ACTIVE.cbs.append(("ecb_raise", task_id))
     raise RuntimeError("callback-failed-%s" % task_id)
